@@ -334,6 +334,43 @@ func formatGate(e *Env, rule string) {
 	arg := fm[0].Common().Args[0]
 	bo, isAdd := arg.(*ssa.BinOp)
 	r.Check(isAdd && bo.Op == token.ADD, rule, bk+"#head-then-body", "the formatter receives head followed by body", e.P.Pos(fm[0].Pos()))
+	if isAdd {
+		// which template produced each half: the `name` of the tpl value whose exec() result it is
+		tplNameOf := func(v ssa.Value) string {
+			ex, ok := v.(*ssa.Extract)
+			if !ok || ex.Index != 0 {
+				return ""
+			}
+			c, ok := ex.Tuple.(*ssa.Call)
+			if !ok || len(c.Call.Args) == 0 {
+				return ""
+			}
+			recv := c.Call.Args[0]
+			if ld, isLd := recv.(*ssa.UnOp); isLd && ld.Op == token.MUL {
+				recv = ld.X
+			}
+			al, ok := recv.(*ssa.Alloc)
+			if !ok {
+				return ""
+			}
+			for _, ref := range *al.Referrers() {
+				if fa, isFa := ref.(*ssa.FieldAddr); isFa && fieldName(fa) == "name" {
+					for _, r2 := range *fa.Referrers() {
+						if st, isSt := r2.(*ssa.Store); isSt {
+							if s, isS := constString(st.Val); isS {
+								return s
+							}
+						}
+					}
+				}
+			}
+			return ""
+		}
+		hn, bn := tplNameOf(bo.X), tplNameOf(bo.Y)
+		if hn != "" || bn != "" {
+			r.Check(strings.HasPrefix(hn, "head") && strings.HasPrefix(bn, "body"), rule, bk+"#halves", fmt.Sprintf("the first half is the output of the head template and the second that of the body template (found %q + %q)", hn, bn), e.P.Pos(fm[0].Pos()))
+		}
+	}
 	// unconditional: Format is not behind the stub flag
 	r.Check(!dominatedByAnyFieldTest(bf, fm[0], "stub"), rule, bk+"#format-unconditional", "formatting does not depend on the stub flag")
 }
@@ -764,7 +801,7 @@ func dupGetterRule(e *Env, rule string) {
 		}
 	}
 	walk(root)
-	found, weak := "", ""
+	found, weak, weakFlag := "", "", ""
 	for f := range seen {
 		var maps []ssa.Value
 		allInstrs(f, func(_ *ssa.Function, ins ssa.Instruction) {
@@ -775,6 +812,21 @@ func dupGetterRule(e *Env, rule string) {
 		if len(maps) == 0 {
 			continue
 		}
+		// the only services left out of the count are todo services (which are not generated): a flag read
+		// through ptr.Dereference in this function is the todo flag
+		allInstrs(f, func(_ *ssa.Function, ins ssa.Instruction) {
+			c, ok := ins.(*ssa.Call)
+			if !ok {
+				return
+			}
+			g := c.Call.StaticCallee()
+			if g == nil || g.Origin() == nil || g.Origin().Name() != "Dereference" || len(c.Call.Args) == 0 {
+				return
+			}
+			if !derivesFromField(c.Call.Args[0], "Todo", 0) {
+				weakFlag = "a service is left out of the duplicate count on a flag other than todo: " + e.P.Pos(c.Pos())
+			}
+		})
 		// an error site guarded by a condition that reads one of these maps
 		rf := rootFn(f)
 		for _, s := range errorSites(append([]*ssa.Function{rf}, rf.AnonFuncs...)) {
@@ -799,6 +851,9 @@ func dupGetterRule(e *Env, rule string) {
 				}
 			}
 		}
+	}
+	if weakFlag != "" {
+		found, weak = "", weakFlag
 	}
 	if found != "" {
 		r.Hold(rule, inputRel+"#duplicate-getter-detection", "equal getters are counted per getter value and reported in "+found)
